@@ -88,7 +88,10 @@ for n in ["crash_after_0_nosurv", "crash_after_1_nosurv", "crash_after_2_nosurv_
     H(n, ["C12"], sym="payload bytes symbolic; the dying sender's packets are the prefixes (0..3 packets) of the 3-packet plan, then all its descriptors are closed; survivor handle and observer (recv / try_recv) concrete",
       bounds="unwind 6; 3-packet message, <= 1 attachment")
 for n in ["many_63_single", "many_64_single", "many_65_single", "many_63_frag", "many_64_frag", "many_66_frag"]:
-    H(n, ["C15", "C18"], features="k_q,bigfd", timeout=1800, sym="payload bytes symbolic; N descriptors (name) + dedicated channel if fragmented, injected", bounds="unwind 72")
+    # > 64 descriptors in all: outside the sender's contract; the receiver may hang there (end unreachable)
+    over = n in ("many_65_single", "many_64_frag", "many_66_frag")
+    H(n, ["C15", "C18"], features="k_q,bigfd", timeout=1800, sym="payload bytes symbolic; N descriptors (name) + dedicated channel if fragmented, injected", bounds="unwind 72",
+      opt=["TRUNCATED", "REACH_END"] if over else ["TRUNCATED"], end_optional=over)
 for n in ["send_many_63_single", "send_many_64_single", "send_many_65_single", "send_many_63_frag", "send_many_64_frag", "send_many_64_enobufs"]:
     H(n, ["C15"], features="k_rec,bigfd", timeout=1800, sym="attachment count n in the name; shapes: 1 byte / 25 bytes (2 packets) / 3000 bytes with the first attempt refused", bounds="unwind 72",
       opt=["REACH_OK", "REACH_ERR"])
